@@ -66,12 +66,18 @@ class InProc(Part):
     def strategy(self, tier):
         return cases()
 
+    procs = False
+
     def execute(self, case):
         spec = common.with_prefix(case['spec'])
-        opts = case['opts']
+        opts = dict(case['opts'])
         moved = opts.get('in_defaults') or []
+        if self.procs:
+            # every layer in a subprocess of its own: each child discovers the tests again and keeps its layer's
+            opts['list'] = False
+            opts['j'] = 2
         run = drive.run_inproc(spec, common.args_of({k: v for k, v in opts.items() if k not in moved}),
-                               defaults=common.args_of({k: opts[k] for k in moved}))
+                               defaults=common.args_of({k: opts[k] for k in moved}), disk=self.procs)
         viol = common.run_escaped(run, 'C09')
         sel = expected(spec, opts)
         want = {ln: sorted(r['str'] for r in recs) for ln, recs in sel.items()}
@@ -92,6 +98,8 @@ class InProc(Part):
                 p = parse.parse(run.out)
                 claimed = {}
                 for b in p.blocks:
+                    if self.procs and b.layer == '.EmptyLayer':
+                        continue
                     claimed[b.layer] = sum(r[0] for r in b.ran)
                 ran = sorted(got.get(None, []))
                 want_all = sorted(s for v in want.values() for s in v)
@@ -154,20 +162,27 @@ def _shd(d, spec):
     return {k.replace(spec['mp'], ''): _sh(v, spec) for k, v in d.items()}
 
 
+class Procs(InProc):
+    """the same worlds with -j 2: every layer subprocess discovers the tests again and must keep exactly its layer's"""
+    name = 'procs'
+    examples = {'quick': 96, 'thorough': 2000}
+    procs = True
+
+
 class C09(Prop):
     id = 'C09'
     registered = True
-    technique = 'Hypothesis-generated suite trees with layer/level declarations at every depth vs. a reference resolver; --list-tests output and executed trace compared'
+    technique = 'Hypothesis-generated suite trees with layer/level declarations at every depth vs. a reference resolver; --list-tests output and executed trace compared, in process and with every layer in a subprocess (-j 2)'
     level_text = 'Suite trees up to depth 5 with competing layer/level declarations (suite, class, instance), level options around every declared level and all -u/-f/--layer combinations are run; the listing per layer (or the executed set + per-layer counts) must equal the reference selection computed from the spec.'
     level_note = 'Trusts the reference resolver in ztv/model.py (written from the statement); reserved unit-layer name not used inside other layer names.'
     rule = ('Hypothesis worlds: suite trees up to depth 5 with layer/level present or absent at every depth, on the '
             'case class and on the test instance (levels -1..4), options --at-level around the declared levels, '
             '--all, --only-level, -u/-f/--layer in all combinations; compared with --list-tests output (3/4) or with '
-            'the executed trace + per-layer counts (1/4). Non-trivial = some test path carries >=2 competing '
+            'the executed trace + per-layer counts (1/4); procs part: the same worlds with -j 2. Non-trivial = some test path carries >=2 competing '
             'declarations AND (a test level equals --at-level or --only-level is given).')
     assumptions = ('layer names containing the reserved unit-layer name as a substring are not generated',
                    '-u together with -f is neutral: --layer still applies')
-    parts = (InProc(),)
+    parts = (InProc(), Procs())
 
 
 PROP = C09()
